@@ -6,7 +6,7 @@
 (* the properties are silent.                                              *)
 (*                                                                         *)
 (* The module exports one set-valued step operator                         *)
-(*     NextStates(cfg, st, req, out, flt)                                  *)
+(*     NextStates(cfg, st, req, out, flt, gf)                              *)
 (* = the set of abstract states the properties allow after request `req'   *)
 (* was answered by the reaction `out' (a sequence of sleep and transmit    *)
 (* items) in state `st'; empty when the reaction is not allowed.           *)
@@ -20,6 +20,18 @@
 (*   obs    : set of [rs, es, ed]  probes observed since the last drain    *)
 (*   havoc  : a platform fault hit a request; only a topology Reset leads  *)
 (*            back to specified behaviour (C18)                            *)
+(* Sequence numbers and generations are deliberately NOT part of the       *)
+(* state: every property that mentions them relates a reply to its own     *)
+(* request; that nothing else carries over is what the twin runs check.    *)
+(*                                                                         *)
+(* Named freedoms (where the properties are silent the step is set-valued  *)
+(* or the predicate is absent): StrangerCommandMayTakeOver,                *)
+(* AckToRealOrApparent, ExtraSleep, KeyCollisionKeepsEither,               *)
+(* CapAnyAtLeast300, MoreWhenExactlyFull, MalformedHeaderMayBeIgnored,     *)
+(* quick-discovery Reset may or may not discard observations, quick-       *)
+(* discovery Emit/Probe/Query ignored or served, destination of a          *)
+(* QueryLargeTlvResp, Ethernet source of an ACK, real destination of an    *)
+(* emitted Probe (fixed by C10 through NetworkMC), descriptor type field.  *)
 (***************************************************************************)
 EXTENDS Wire
 
